@@ -573,6 +573,11 @@ func runC12(tier string, seed uint64) int {
 	tfs := make([][]treeFault, len(drefs))
 	parallel(len(drefs), workers, func(k int) { tfs[k] = enumerateTreeFaults(ctxs[drefs[k].ci].docs[drefs[k].ti].Text) })
 	for k, d := range drefs {
+		// whole-document faults: the document is lost (what referred to it now dangles), or stored twice
+		orig := ctxs[d.ci].docs[d.ti].Text
+		muts = append(muts, c12Mutant{ctx: d.ci, target: d.ti, kind: "F1", desc: "drop the whole document", text: "# lost\n", t2: -1},
+			c12Mutant{ctx: d.ci, target: d.ti, kind: "F1", desc: "the document is stored twice", text: orig + "---\n" + orig, t2: -1})
+		f1 += 2
 		for _, tf := range tfs[k] {
 			muts = append(muts, c12Mutant{ctx: d.ci, target: d.ti, kind: "F1", desc: tf.op + " " + strings.TrimPrefix(tf.path, "."), text: tf.text, t2: -1})
 			f1++
